@@ -177,10 +177,20 @@ harness(void)
 	{
 		nni_aio a;
 		nni_aio_init(&a, NULL, NULL);
+#ifdef NB
+		nni_aio_set_timeout(&a, NNG_DURATION_ZERO); /* NNG_FLAG_NONBLOCK */
+#endif
 		env_aio_submit(&a);
 		nni_msgq_aio_get(q, &a);
+#ifdef NB
+		if (len == 0) {
+			CHECK(env_aio_completed(&a) == 1 && nni_aio_result(&a) == NNG_ETIMEDOUT, "C15: non-blocking get on an empty queue fails at once");
+			CHECK(nni_list_empty(&q->mq_aio_getq), "a refused non-blocking get is not left queued");
+			WITNESS("nonblocking get refused");
+		} else
+#endif
 		if (len > 0) {
-			CHECK(env_aio_completed(&a) == 1 && nni_aio_result(&a) == 0, "get on a non-empty queue completes at once");
+			CHECK(env_aio_completed(&a) == 1 && nni_aio_result(&a) == 0, "C15: get on a non-empty queue completes at once (also when non-blocking)");
 			CHECK(nni_aio_get_msg(&a) == seq[0], "get returns the oldest message");
 			CHECK(q->mq_len == len - 1, "get: length - 1");
 #if CAP > 0
@@ -199,10 +209,21 @@ harness(void)
 		nni_aio a;
 		nni_aio_init(&a, NULL, NULL);
 		nni_aio_set_msg(&a, &pool[ALLOC]);
+#ifdef NB
+		nni_aio_set_timeout(&a, NNG_DURATION_ZERO); /* NNG_FLAG_NONBLOCK */
+#endif
 		env_aio_submit(&a);
 		nni_msgq_aio_put(q, &a);
+#ifdef NB
+		if (len >= CAP) {
+			CHECK(env_aio_completed(&a) == 1 && nni_aio_result(&a) == NNG_ETIMEDOUT, "C15: non-blocking put on a full queue fails at once");
+			CHECK(nni_aio_get_msg(&a) == &pool[ALLOC], "a refused put keeps its message");
+			CHECK(nni_list_empty(&q->mq_aio_putq), "a refused non-blocking put is not left queued");
+			WITNESS("nonblocking put refused");
+		} else
+#endif
 		if (len < CAP) {
-			CHECK(env_aio_completed(&a) == 1 && nni_aio_result(&a) == 0, "put with room completes at once");
+			CHECK(env_aio_completed(&a) == 1 && nni_aio_result(&a) == 0, "C15: put with room completes at once (also when non-blocking)");
 			CHECK(nni_aio_get_msg(&a) == NULL, "accepted message no longer attached to the aio");
 			CHECK(q->mq_len == len + 1, "put: length + 1");
 			CHECK(q->mq_msgs[(q->mq_get + len) % q->mq_alloc] == &pool[ALLOC], "put appends at the tail");
